@@ -84,7 +84,7 @@ def g_stmt(s):
 # ---------------------------------------------------------------------------
 class Opts:
     def __init__(self, kw_case="upper", id_case="lower", use_as=True, rename=None, qualify=None, quote=None,
-                 noise=None, trailing=";", fun4=False, recursive=False):
+                 noise=None, trailing=";", fun4=False, recursive=False, joins=None):
         self.kw_case, self.id_case, self.use_as = kw_case, id_case, use_as
         self.rename = rename or {}          # statement-local names (aliases, CTE names) -> new names
         self.qualify = qualify              # schema to write in front of unqualified table names
@@ -93,6 +93,16 @@ class Opts:
         self.trailing = trailing
         self.fun4 = fun4                    # print coalesce(a, b) as coalesce(a, b, a, b)
         self.recursive = recursive          # print WITH RECURSIVE (the CTE names are visible in their own bodies)
+        self.joins = joins                  # "mixed": rotate JOIN / INNER JOIN / LEFT JOIN / LEFT OUTER JOIN (one token per word)
+        self._jn = 0
+
+    JOIN_KINDS = [["join"], ["inner", "join"], ["left", "join"], ["left", "outer", "join"]]
+
+    def join_tokens(self):
+        if self.joins != "mixed":
+            return [("kw", self.kw("join"))]
+        self._jn += 1
+        return [("kw", self.kw(w)) for w in self.JOIN_KINDS[self._jn % len(self.JOIN_KINDS)]]
 
     def kw(self, w):
         if self.kw_case == "upper": return w.upper()
@@ -155,7 +165,7 @@ def t_rel(r, o, ctes):
     if r[0] == "table":
         return t_tref(r[1], o, ctes) + (t_alias(r[2], o) if r[2] is not None else [])
     if r[0] == "group":
-        return [("sym", "(")] + t_rel(r[1], o, ctes) + [("kw", o.kw("join"))] + t_rel(r[2], o, ctes) + \
+        return [("sym", "(")] + t_rel(r[1], o, ctes) + o.join_tokens() + t_rel(r[2], o, ctes) + \
             [("kw", o.kw("on")), ("lit", "1"), ("sym", "="), ("lit", "1"), ("sym", ")")]
     return [("sym", "(")] + t_query(r[1], o, ctes) + [("sym", ")")] + t_alias(r[2], o)
 
@@ -175,7 +185,7 @@ def t_query(q, o, ctes):
         out.append(("kw", o.kw("from")))
         for n, r in enumerate(q[2]):
             if n:
-                out += [("sym", ",")] if q[3] else [("kw", o.kw("join"))]
+                out += [("sym", ",")] if q[3] else o.join_tokens()
             out += t_rel(r, o, ctes)
             if n and not q[3]:
                 out += [("kw", o.kw("on")), ("lit", "1"), ("sym", "="), ("lit", "1")]
@@ -222,6 +232,7 @@ def t_stmt(s, o):
 
 def to_sql(s, o=None) -> str:
     o = o or Opts()
+    o._jn = 0
     toks = t_stmt(s, o)
     parts = []
     for i, (_, text) in enumerate(toks):
@@ -511,6 +522,38 @@ def gen_scoped(r):
     if r.random() < 0.3:
         q = union(q, select([iexpr(col(None, "ck"), None) for _ in items], [rtable(z[0], z[1])]))
     return wrap_stmt(r, q, ["o%d" % i for i in range(len(items))]), al, x[1]
+
+
+def gen_same_alias_pair(r):
+    """two statements that differ only in the spelling of ONE derived-table alias: in the first, two different derived
+    tables in sibling scopes carry the same alias (and expose a same-named column that flows to different targets); in
+    the second the aliases are distinct.  Renaming a local name of one scope must not change anything."""
+    a, b = r.sample([t for t in TABLES if t[1] != "t1"] + [("s1", "t1")], 2)
+    ca, cb = r.sample(COLS, 2)
+    al = r.choice(["t", "sub", "v"])
+
+    def build(al2):
+        ia = rderived(select([iexpr(col(None, ca), "c1"), iexpr(col(None, "ck"), "k1")], [rtable(a[0], a[1])]), al)
+        ib = rderived(select([iexpr(col(None, cb), "c1"), iexpr(col(None, "ck"), "k1")], [rtable(b[0], b[1])]), al2)
+        shape = build.shape
+        if shape == "nested-join":
+            x = rderived(select([iexpr(col(al, "c1"), None)], [ia]), "x")
+            y = rderived(select([iexpr(col(al2, "c1"), None)], [ib]), "y")
+            q = select([iexpr(col("x", "c1"), "o1"), iexpr(col("y", "c1"), "o2")], [x, y], build.comma)
+        elif shape == "direct-join":
+            # the two derived tables side by side cannot share an alias; put one of them a level down
+            y = rderived(select([iexpr(col(al2, "c1"), "c1")], [ib]), "y")
+            q = select([iexpr(col(al, "c1"), "o1"), iexpr(col("y", "c1"), "o2")], [ia, y], build.comma)
+        else:   # union branches, the shared column name at different positions
+            q = union(select([iexpr(col(al, "c1"), "o1"), iexpr(col(al, "k1"), "o2")], [ia]),
+                      select([iexpr(col(al2, "k1"), "o1"), iexpr(col(al2, "c1"), "o2")], [ib]))
+        return q
+    build.shape = r.choice(["nested-join", "nested-join", "direct-join", "union"])
+    build.comma = r.random() < 0.3
+    kind = r.choice(["insert", "ctas", "view"])
+    tgt = r.choice(TARGETS)
+    wrap = (lambda q: ("insert", tgt, None, q)) if kind == "insert" else (lambda q: (kind, tgt, q))
+    return wrap(build(al)), wrap(build("zz9"))
 
 
 # ---------------------------------------------------------------------------
